@@ -65,6 +65,10 @@ namespace occa {
     void addStreamTagRef(modeStreamTag_t *streamTag);
     void removeStreamTagRef(modeStreamTag_t *streamTag);
 
+    // bytesAllocated += delta (delta < 0 when memory is released) and
+    // maxBytesAllocated follows, one thread at a time in the sharable build
+    void addBytesAllocated(const dim_t delta);
+
     void finish() const;
     void finishAll() const;
 
